@@ -196,8 +196,10 @@ def wholeCorr (c : Case) : List String :=
       | some (some v) =>
         if toDict d c.b0 == v then [] else
           [s!"{c.id} CORR diff toDictWhole model=[{showVal (toDict d c.b0)}] impl=[{showVal v}]"]
-    let d2 := if wfB d c.b0 then [] else
-      [s!"{c.id} CORR diff wf: the bytes built through the field API are outside WFD (hypothesis of dict_roundtrip)"]
+    let d2 := (if wfB d c.b0 then [] else
+      [s!"{c.id} CORR diff wf: the bytes built through the field API are outside WFD (hypothesis of dict_roundtrip)"]) ++
+      (if descOkJ d then [] else
+      [s!"{c.id} CORR diff wf: the class has a struct array of length 0 or of non-structs (hypothesis of message_json_roundtrip)"])
     let d3 := c.probes.reverse.flatMap fun p =>
       match p.val with
       | none => [s!"{c.id} CORR diff fromDictWhole/{p.name}: unparsable dictionary"]
@@ -247,6 +249,22 @@ def jsonCorr (c : Case) : List String :=
         | some jh, some j => some (.obj (.cons (keyOf "header") jh (.cons (keyOf "data") j .nil)))
         | _, _ => none
       | _ => none
+    -- Python's `float(token)`: the bit pattern that was formatted to this token (`NaN` reads as the quiet NaN)
+    let fparse : List Char → Nat := fun t =>
+      if t == ['N', 'a', 'N'] then 0x7ff8000000000000 else ((c.ftoks.find? (·.2 == t)).map (·.1)).getD 0
+    let back := fun (what trip : String) (text : Option (List Char)) =>
+      match text, c.trips.find? (·.name == trip) with
+      | some t, some tr =>
+        (match fromJson fparse d t, tr.bytes with
+         | some (mb, none), some ib => if mb == ib then [] else
+             [s!"{c.id} CORR diff {what} model=[{showHex mb}] impl=[{showHex ib}]"]
+         | some (_, some _), none => []
+         | none, none => []
+         | some (mb, none), none => [s!"{c.id} CORR diff {what} model=[{showHex mb}] impl=[err]"]
+         | some (_, some e), some ib => [s!"{c.id} CORR diff {what} model=[err {showDErr e}] impl=[{showHex ib}]"]
+         | none, some ib => [s!"{c.id} CORR diff {what} model=[unparsable text] impl=[{showHex ib}]"])
+      | _, _ => []
+    back "fromJson/min" "json_minified" c.jmin ++ back "fromJson/pretty" "json" c.jpretty ++
     textCorr c.id "jsonMin" none jd c.jmin ++ textCorr c.id "jsonPretty" (some 2) jd c.jpretty ++
       textCorr c.id "msgJsonMin" none msg c.hjmin ++ textCorr c.id "msgJsonPretty" (some 2) msg c.hjpretty
   | _ => []
